@@ -58,15 +58,25 @@ LETTERS = [a + b for a in "abcdefghjkmnpqrstuvwyz" for b in ("", "1")]
 # query generator (typed by construction)
 # ---------------------------------------------------------------------------------------------
 class Gen:
-    def __init__(self, rng, names):
+    def __init__(self, rng, names, reuse=0.0):
         self.rng = rng
         self.names = list(names)
         rng.shuffle(self.names)
+        self.reuse = reuse
+        self.pool = self.names[:rng.choice([1, 2, 3])] or ["a"]
         self.k = 0
         self.reentries = 0
+        self.closed = []  # (type, text) of closed sub-streams generated so far
+        self.reused = 0
 
     def fresh(self):
+        """Next binder name.  Default: pairwise distinct.  `reuse` > 0: with that probability
+        draw from a tiny pool WITH replacement, so binders repeat - in disjoint scopes and as
+        inner re-use of an outer name that is still live (Python scoping is what the generated
+        text means: inside the inner lambda the name is the inner parameter)."""
         self.k += 1
+        if self.reuse and self.rng.random() < self.reuse:
+            return self.rng.choice(self.pool)
         if self.names and self.rng.random() < 0.7:
             return self.names.pop()
         return f"vv{self.k}"
@@ -114,9 +124,21 @@ class Gen:
                 opts += ["first"]
         if not opts:
             return None
+        if isinstance(T, tuple) and T[0] == "seq" and d > 0 and self.reentries < 3:
+            # the same sub-stream used twice (a stream object joined with itself): its binder
+            # names then occur several times in the query, in disjoint or nested scopes
+            same = [t for (tt, t) in self.closed if tt == T]
+            if same and r.random() < 0.3:
+                self.reentries += 1
+                self.reused += 1
+                return r.choice(same)
         for _ in range(6):
             res = self.build(r.choice(opts), T, env, d, cands)
             if res is not None:
+                if isinstance(T, tuple) and T[0] == "seq" and res != "ds" and "lambda" in res:
+                    used = set(re.findall(r"[A-Za-z_][A-Za-z_0-9]*", res))
+                    if not (used & (set(env) - {"ds"})):
+                        self.closed.append((T, res))
                 return res
         return None
 
@@ -220,9 +242,9 @@ class Gen:
         return None
 
 
-def gen_query(rng, names):
+def gen_query(rng, names, reuse=0.0):
     for _ in range(50):
-        g = Gen(rng, names)
+        g = Gen(rng, names, reuse)
         T = ("seq", g.anyT())
         q = g.expr(T, {"ds": ("seq", ("rec", "evt"))}, rng.randint(2, 5))
         if q and q != "ds" and ("Select" in q or "Where" in q):
@@ -243,6 +265,13 @@ def build_data(spec):
             for d in spec]
 
 
+EXTEND = [
+    "Select({S}, lambda {p}: Select({S}, lambda {q}: ({p}, {q})))",
+    "SelectMany({S}, lambda {p}: Select({S}, lambda {q}: ({q}, {p})))",
+    "Where({S}, lambda {p}: Count(Where({S}, lambda {q}: True)) > 0)",
+    "Select({S}, lambda {p}: ({p}, Count({S})))",
+    "Select(Select({S}, lambda {p}: ({p}, 1)), lambda {q}: {q}[0])",
+]
 WARM_QUERY = "Select(Select(ds, lambda e: (e.x, e.w)), lambda t: t[0] + t[1])"
 
 
@@ -250,6 +279,8 @@ def generate(prop, seed, tier="quick", fault_free=False):
     st = Streams(mix(seed, "simplifier_node", prop))
     w, c = st.get("workload"), st.get("config")
     naming = "letters" if fault_free and c.random() < 0.5 else c.choice(["argn", "argn", "mixed"])
+    # binder-naming scheme of the run: all distinct / some re-use / (nearly) all identical
+    reuse = c.choice([0.0, 0.0, 0.3, 0.6, 1.0])
     max_c = c.choice([6, 12, 20])
     argn = [f"arg_{i}" for i in range(0, max_c + 6)]
     names = {"letters": LETTERS, "argn": argn + LETTERS[:6], "mixed": argn + LETTERS}[naming]
@@ -260,17 +291,24 @@ def generate(prop, seed, tier="quick", fault_free=False):
         r = w.random()
         if fault_free:
             # no restarts, no warm-ups, no round trips: one history, ordinary generation
-            ops.append({"op": "serve", "q": gen_query(w, names)})
+            ops.append({"op": "serve", "q": gen_query(w, names, reuse)})
             n_served += 1
             continue
         if r < 0.42 or n_served == 0:
-            ops.append({"op": "serve", "q": gen_query(w, names)})
+            ops.append({"op": "serve", "q": gen_query(w, names, reuse)})
             n_served += 1
         elif r < 0.55:
             ops.append({"op": "reserve", "ref": w.randrange(64)})
             n_served += 1
-        elif r < 0.75:
+        elif r < 0.68:
             ops.append({"op": "roundtrip", "ref": w.randrange(64)})
+            n_served += 1
+        elif r < 0.76:
+            # a query built up step by step: an earlier *output* extended (possibly joined with
+            # itself) and simplified again
+            ops.append({"op": "extend", "ref": w.randrange(64), "shape": w.randrange(len(EXTEND)),
+                        "p": w.choice(["pp", "arg_%d" % w.randrange(0, 30)]),
+                        "q": w.choice(["qq", "arg_%d" % w.randrange(30, 60)])})
             n_served += 1
         elif r < 0.88:
             ops.append({"op": "restart",
@@ -279,7 +317,7 @@ def generate(prop, seed, tier="quick", fault_free=False):
             ops.append({"op": "warm", "k": w.choice([1, 1, 2, 3, 5, 9])})
     return {"property": prop, "engine": "simplifier_node", "engine_version": ENGINE_VERSION,
             "seed": seed, "sched_seed": 0,
-            "config": {"naming": naming, "data": gen_data(st.get("data"))},
+            "config": {"naming": naming, "binder_reuse": reuse, "data": gen_data(st.get("data"))},
             "ops": ops}
 
 
@@ -440,8 +478,9 @@ class Node:
             if k == "serve":
                 root = op.get("for", op["q"])
                 if "for" in op:
-                    self.stat("probe_roundtrip_served" if op.get("was") == "roundtrip"
-                              else "probe_same_text_two_histories")
+                    self.stat({"roundtrip": "probe_roundtrip_served",
+                               "extend": "probe_extended_output_served"}.get(
+                        op.get("was"), "probe_same_text_two_histories"))
                 rec = self.serve(op["q"], self.refs_for(root), op.get("was", "submit"), root)
                 if rec:
                     self.served.append(rec)
@@ -469,6 +508,24 @@ class Node:
                 rec = self.serve(old["out"], old["refs"], "roundtrip", old["root"])
                 if rec:
                     self.served.append(rec)
+            elif k == "extend":
+                if not self.served:
+                    continue
+                old = self.served[op["ref"] % len(self.served)]
+                if old["out"] == "<unprintable>":
+                    continue
+                names = set(re.findall(r"[A-Za-z_][A-Za-z_0-9]*", old["out"] + old["root"]))
+                p_, q_ = op["p"], op["q"]
+                if p_ in names or q_ in names or p_ == q_:
+                    p_, q_ = "pp_" + p_, "qq_" + q_
+                tmpl = EXTEND[op["shape"] % len(EXTEND)]
+                text = tmpl.format(S=old["out"], p=p_, q=q_)
+                root = tmpl.format(S=old["root"], p=p_, q=q_)
+                self.stat("probe_extended_output_served")
+                self.resolved[-1] = {"op": "serve", "q": text, "for": root, "was": "extend"}
+                rec = self.serve(text, self.refs_for(root), "extend", root)
+                if rec:
+                    self.served.append(rec)
             elif k == "restart":
                 self.mod = fresh_module()
                 self.stat("fault_restart")
@@ -491,7 +548,7 @@ def execute(case):
         viol = {"class": v.cls, "detail": v.detail}
     kinds = [o["op"] for o in case["ops"]]
     texts = "\n".join(o.get("q", "") for o in case["ops"])
-    nontrivial = any(k in ("restart", "roundtrip", "reserve") for k in kinds) or bool(
+    nontrivial = any(k in ("restart", "roundtrip", "reserve", "extend") for k in kinds) or bool(
         n.stats.get("served_with_argN_binder"))
     if viol is not None:
         viol["detail"] = json.loads(_ADDR.sub("0x?", json.dumps(viol["detail"], default=repr)))
